@@ -3,7 +3,9 @@ use std::sync::Arc;
 use std::thread;
 use std::time::Duration;
 
-use crate::coroutine_impl::{co_cancel_data, is_coroutine, CoroutineImpl, EventSource};
+use crate::coroutine_impl::{
+    co_cancel_data, co_get_handle, is_coroutine, CoroutineImpl, EventSource,
+};
 use crate::likely::unlikely;
 use crate::scheduler::get_scheduler;
 use crate::yield_now::{get_co_para, yield_with};
@@ -15,6 +17,10 @@ struct Sleep {
 impl EventSource for Sleep {
     // register the coroutine to the park
     fn subscribe(&mut self, co: CoroutineImpl) {
+        // once the timer is armed the coroutine can be resumed by the timer thread,
+        // run to its end and be freed together with the cancel data that we still
+        // use afterwards: keep it alive with a handle
+        let _handle = co_get_handle(&co);
         let cancel = co_cancel_data(&co);
         // put the coroutine into the timer list
         let sleep_co = Arc::new(AtomicOption::some(co));
